@@ -1209,6 +1209,7 @@ impl<C: Config, Q: Query> Snapshot<C, Q> {
     pub(super) async fn done_backward_projection(
         mut self,
         mut backward_projection_lock_guard: BackwardProjectionLockGuard<C>,
+        active_computation_guard: Option<ActiveComputationGuard>,
     ) {
         let engine = self.engine().clone();
         let query_id = *self.query_id();
@@ -1216,6 +1217,8 @@ impl<C: Config, Q: Query> Snapshot<C, Q> {
         self.upgrade_to_exclusive().await;
 
         async move {
+            let _active_computation_guard = active_computation_guard;
+
             // the write batch must not exist across the cancellable await above
             let mut tx = engine.new_write_transaction();
 
